@@ -253,6 +253,12 @@ def evidence(tier):
                    'entry; directly and through Enforcer.enforce' % (
                        3 if q else 4, 2 if q else 3, 3 if q else 4,
                        ALPHABET)},
+        'bounds_more': {'repeat': 'the same check/enforcer asked twice with '
+                        'the same credentials object whose role list is '
+                        'appended to / item-replaced / cleared / replaced '
+                        'in between (symbolic names, small alphabet)',
+                        'dotted-placeholder': 'placeholder %(k.j)s with the '
+                        'flat key present or not and a nested-dict decoy'},
         'symbols': ['x#i, r<j>#i, y#i: Int code points over the alphabet',
                     'has_roles, has_key, has_j: Bool'],
         'stubs': ['import-time rewrite of % in _checks.py (string '
